@@ -3,6 +3,7 @@
 
 mod c14;
 mod refrouter;
+mod sock;
 mod topo;
 
 use std::collections::BTreeMap;
@@ -1182,7 +1183,7 @@ impl Engine for NetEngine {
     }
     fn required_reach(&self, prop: &str) -> Vec<&'static str> {
         match prop {
-            "C14" => vec!["scmp-error-observed", "quote-checked", "quote-truncated", "echo-round-trip", "echo-reply-checked", "error-for-refused-packet", "link-down", "path-expired", "host-replied"],
+            "C14" => vec!["scmp-error-observed", "quote-checked", "quote-truncated", "echo-round-trip", "echo-reply-checked", "error-for-refused-packet", "link-down", "path-expired", "host-replied", "socket-datagrams-delivered", "socket-errors-reported", "socket-echo-replied", "receiver-cancelled", "reply-send-fails", "spurious-wakeup", "scmp-error-between-datagrams"],
             "C11" => vec!["authentic-path-verified", "reverse-path-verified", "tamper-authenticated-field", "tamper-detected-in-time", "refusal-checked-for-atomicity", "replayed-at-earlier-as", "library-router-tamper-checked"],
             "C13" => vec!["shortcut-path", "peering-path", "three-segment-path", "attacker-recombination", "attack-accepted-by-reference", "attack-refused-by-reference", "bit-flip", "delay-across-expiry", "link-down-in-flight", "misdelivery", "one-hop-packet", "one-hop-delivered"],
             _ => vec!["pair-with-paths", "shortcut-path", "peering-path", "three-segment-path", "reverse-walked"],
